@@ -135,8 +135,25 @@ fn encode(value: &str) -> Option<Vec<u8>> {
     guarded(move || to_der(parse_value(&v, false).as_ref()))
 }
 
+/// decode with from_der (ber = false) / from_ber, then to_der of what was read; same = the re-encoding is the input
+fn decode_encode(template: &str, bytes: Vec<u8>, ber: bool) -> String {
+    let t = template.to_string();
+    let input = bytes.clone();
+    match guarded(move || {
+        let mut m = parse_value(&t, true);
+        let r = if ber { from_ber(m.as_mut(), &bytes) } else { from_der(m.as_mut(), &bytes) };
+        r.map(|_| { let mut s = String::new(); dump(m.visit(), &mut s); (s, to_der(m.as_ref())) })
+    }) {
+        None => "panic".to_string(),
+        Some(Err(e)) => format!("err:{}", err_name(&e)),
+        Some(Ok((s, w))) => format!("ok:{} w={} same={}", s, hex(&w), if w == input { 1 } else { 0 }),
+    }
+}
+
 pub fn op_der(args: &[&str]) -> String {
     match args[0] {
+        "dw" => decode_encode(args[1], unhex(args[2]), false),
+        "dwber" => decode_encode(args[1], unhex(args[2]), true),
         "enc" => match encode(args[1]) { Some(b) => format!("ok:{}", hex(&b)), None => "panic".to_string() },
         "rt" => match encode(args[1]) {
             None => "w=panic".to_string(),
@@ -167,8 +184,28 @@ fn read_cr(bytes: Vec<u8>) -> String {
     }
 }
 
+/// mcs crdw <hex>: the connect response through from_ber (as the client reads it), then to_der of what was read
+fn read_write_cr(bytes: Vec<u8>) -> String {
+    let input = bytes.clone();
+    match guarded(move || {
+        let mut cr = mcs::verif_connect_response(None);
+        from_ber(&mut cr, &bytes).map(|_| {
+            let ud = match cr.visit() {
+                ASN1Type::Sequence(s) => match s.iter().last().map(|(_, v)| v.visit()) { Some(ASN1Type::OctetString(b)) => hex(b), _ => "?".to_string() },
+                _ => "?".to_string(),
+            };
+            (ud, to_der(&cr))
+        })
+    }) {
+        None => "panic".to_string(),
+        Some(Err(e)) => format!("err:{}", err_name(&e)),
+        Some(Ok((ud, w))) => format!("ok:ud={} same={}", ud, if w == input { 1 } else { 0 }),
+    }
+}
+
 pub fn op_mcs(args: &[&str]) -> String {
     match args[0] {
+        "crdw" => read_write_cr(unhex(args[1])),
         "ci" => { let ud = unhex(args[1]); show_bytes(guarded(move || Ok(to_der(&mcs::verif_connect_initial(Some(ud)))))) }
         "cr" => read_cr(unhex(args[1])),
         "crt" => {
@@ -212,7 +249,7 @@ pub fn op_gcc(args: &[&str]) -> String {
                 Some(Err(e)) => format!("err:{}", err_name(&e)),
                 Some(Ok(sd)) => {
                     let ids: Vec<String> = sd.channel_ids.iter().map(|x| format!("{}", x)).collect();
-                    format!("ok:ids={}:ver={}", if ids.is_empty() { "-".to_string() } else { ids.join(".") }, version_name(sd.rdp_version))
+                    format!("ok:io={}:ids={}:ver={}", sd.global_channel_id, if ids.is_empty() { "-".to_string() } else { ids.join(".") }, version_name(sd.rdp_version))
                 }
             }
         }
